@@ -40,6 +40,18 @@ func c05Beh(b, i int) drive.Beh {
 	return drive.Beh{Kind: b, Code: 10 + i}
 }
 
+// digest of a configuration: selects the error policy and what kind of value each panicking hook raises
+func (k c05Cfg) digest() int {
+	h := k.d
+	for i, b := range k.beh {
+		h = h*7 + b + i
+	}
+	if h < 0 {
+		h = -h
+	}
+	return h
+}
+
 func c05Count(d int) int { // 5^(2(d+1)+1)
 	n := 1
 	for i := 0; i < 2*(d+1)+1; i++ {
@@ -68,8 +80,8 @@ func init() {
 		ID:        "C05",
 		Title:     "Before/Action/After run in nesting order; Afters always run; Exit comes last",
 		Technique: "bounded-exhaustive runtime monitor: event log of every hook, exit stub and recovered panic value of the real library, judged by an executable flow model; sample re-run in real child processes with the real os.Exit",
-		Rule: "a case is a chain of d+1 nested commands and one behaviour out of {absent, returns, panics with a distinct pointer value, calls Exit with a distinct non-zero status, calls Exit(0)} for each Before, the addressed Action and each After: " +
-			"ALL combinations for d<=2 (quick) / d<=3 (thorough), random combinations for d=4,5; thorough additionally re-runs sampled combinations in child processes without any stub (real os.Exit), observing the flushed event log, " +
+		Rule: "a case is a chain of d+1 nested commands and one behaviour out of {absent, returns, panics (with a distinct pointer, an error value, a Go runtime error or a string, chosen per hook), calls Exit with a distinct non-zero status, calls Exit(0)} for each Before, the addressed Action and each After: " +
+			"ALL combinations for d<=2 (quick) / d<=3 (thorough), random combinations for d=4,5 (half of them run twice on the same application object); the error policy varies with the configuration; thorough additionally re-runs sampled combinations in child processes without any stub (real os.Exit), observing the flushed event log, " +
 			"the exit status and the panic on stderr. Oracle (DESIGN 3.6): exact event sequence, each hook at most once, exit exactly once, as the last event and with the status of the most recently raised Exit, " +
 			"the re-panicked value identical (pointer equality) to the most recently raised one, nil return otherwise. Configurations whose Action is absent are unclaimed (the library prints help instead) and only counted. " +
 			"non-trivial = configuration with at least one raising hook; distinct by configuration.",
@@ -183,10 +195,13 @@ func (k c05Cfg) tree() *drive.Cmd {
 	for i := 0; i <= k.d; i++ {
 		n := &drive.Cmd{ID: i, Aliases: []string{fmt.Sprintf("c%d", i)}, Prog: &Prog{}, Parent: cur}
 		n.Before = c05Beh(k.beh[i], i)
+		n.Before.PanKind = (k.digest() + i) % 4
 		hi := k.d + 1 + (k.d - i) + 1
 		n.After = c05Beh(k.beh[hi], hi)
+		n.After.PanKind = (k.digest() + hi) % 4
 		if i == k.d {
 			n.Action = c05Beh(k.beh[k.d+1], k.d+1)
+			n.Action.PanKind = (k.digest() + k.d + 1) % 4
 		} else {
 			n.Action = drive.Beh{Kind: drive.BehReturn} // never addressed
 		}
@@ -260,8 +275,22 @@ func c05One(c *core.Ctx, k c05Cfg, family string) {
 	desc := map[string]interface{}{"config": k.String(), "hooks": k.describe(), "argv": k.argv()}
 	c.Journal(desc)
 	wantEv, last := k.model()
-	policy := []flag.ErrorHandling{flag.ContinueOnError, flag.ExitOnError, flag.PanicOnError}[len(k.String())%3]
-	o := drive.Run(&drive.App{Root: k.tree(), Policy: policy}, k.argv())
+	policy := []flag.ErrorHandling{flag.ContinueOnError, flag.ExitOnError, flag.PanicOnError}[k.digest()%3]
+	c.Inc("policy_" + policyName(policy))
+	var o *drive.Obs
+	if family == "sampled" && k.digest()%2 == 0 {
+		// the same application object is run twice: the second run must go through the whole flow again
+		b := drive.Build(&drive.App{Root: k.tree(), Policy: policy})
+		first := b.Run(k.argv())
+		o = b.Run(k.argv())
+		c.Inc("second_run_on_same_object")
+		if first.EventStr() != o.EventStr() {
+			c.Violation(fmt.Sprintf("first run of the application object: events %s; second run: %s", first.EventStr(), o.EventStr()), map[string]interface{}{"hooks": k.describe()}, nil)
+			return
+		}
+	} else {
+		o = drive.Run(&drive.App{Root: k.tree(), Policy: policy}, k.argv())
+	}
 	c.Eval()
 	c.Inc("family_" + family)
 	c.Inc(fmt.Sprintf("depth_%d", k.d))
@@ -294,8 +323,8 @@ func c05One(c *core.Ctx, k c05Cfg, family string) {
 			c.Violation(fmt.Sprintf("expected exactly one exit; exits=%d panic=%v", o.Exits, o.Pan), nil, nil)
 		}
 	default:
-		pv, _ := o.Pan.(*drive.PanicValue)
-		if pv == nil || pv != o.PanVals[names[last]] || o.Exit != nil {
+		c.Inc(fmt.Sprintf("panic_value_kind_%d", (k.digest()+last)%4))
+		if o.Pan == nil || !drive.SamePanic(o.Pan, o.PanVals[names[last]]) || o.Exit != nil {
 			c.Violation(fmt.Sprintf("expected the value raised by %s to be re-raised unchanged; observed panic=%#v exit=%v", names[last], o.Pan, o.Exit), nil, nil)
 		}
 	}
